@@ -54,7 +54,7 @@ def create_synced_records_both_sides(w: World, translated_path: str):
     check(truthy(own_hash), "a file without a hash is never created on the other side")
 
 
-@lemma(props=["C03", "C10"], configs="sides", raises=["Exception"],
+@lemma(props=["C03", "C10", "C02", "C05"], configs="sides", raises=["Exception"],
        stubs={"cloudsync.sync.manager:SyncManager._create_synced": {"results": ["None"], "havoc": True},
               "cloudsync.sync.manager:SyncManager.handle_cloud_file_not_found_error": {"results": ["PUNT"], "havoc": True}})
 def create_synced_fault_table(w: World, translated_path: str):
@@ -95,6 +95,7 @@ def handle_rename_effects(w: World, translated_path: str):
     own_path = sync[changed].path
     sp0 = sync[synced].sync_path
     prio0 = sync.priority
+    hashes0 = (sync[changed].hash, sync[changed].sync_hash, sync[synced].hash, sync[synced].sync_hash)
     r = mgr.handle_rename(sync, changed, synced, translated_path)
     ws = provider_writes()
     check(r == FINISHED or r == PUNT, "finished or punt")
@@ -110,6 +111,9 @@ def handle_rename_effects(w: World, translated_path: str):
             check(sync[synced].sync_path == translated_path, "synced side: recorded at the translated path")
             check(sync[changed].sync_path == own_path, "changed side: recorded at its own path")
             check(sync[synced].oid == ws[0].result, "the peer id is what rename returned")
+            check((sync[changed].hash, sync[changed].sync_hash, sync[synced].hash, sync[synced].sync_hash) == hashes0,
+                  "a rename mirrors the name only: no content hash or last-synced hash changes (a content change made together "
+                  "with the rename is still pending)")
         else:
             check(sync[synced].sync_path == sp0, "a failed rename is not recorded")
     if len(ws) >= 2:
